@@ -218,6 +218,32 @@ func zzConnReplayAfterShift12() {
 	zzsymCover("replay_after_shift_dropped")
 }
 
+// DTLS 1.3 sequence-number reconstruction cannot lose a record inside the replay window: for every highest
+// authenticated number h < 2^48 of an epoch and every record number s that is newer (up to 2^15 ahead) or at most
+// 2^15-2 behind h (closest-to-expected rule of RFC 9147 4.2.2 around h+1) - which covers every replay window up to 32767 - the 16 bits on the wire (the form pion's
+// peers and pion itself send) are expanded back to exactly s by reconstructSequenceNumber(h), also across a
+// multiple of 2^16; so the record is opened with the right nonce and reaches the replay window with its true
+// number. (8-bit wire numbers only allow 127 behind: stated, not claimed for larger windows.)
+//
+//symgo:entry covers=behind_across_boundary,behind_same_block,ahead
+func zzSeqReconstructInsideWindow13() {
+	h := zzsymU64("highest")
+	s := zzsymU64("seq")
+	zzsymAssume(h <= recordlayer.MaxSequenceNumber)
+	zzsymAssume(s <= recordlayer.MaxSequenceNumber)
+	zzsymAssume(zzsymOr(zzsymAnd(s <= h, h-s < 1<<15-1), zzsymAnd(s > h, s-h <= 1<<15)))
+	got := reconstructSequenceNumber(uint16(s), true, h)
+	zzsymAssert(got == s, "record_inside_window_reconstructed_to_its_own_number")
+	switch {
+	case s > h:
+		zzsymCover("ahead")
+	case s>>16 != h>>16:
+		zzsymCover("behind_across_boundary")
+	default:
+		zzsymCover("behind_same_block")
+	}
+}
+
 func zzRec13(epochLow byte, seq uint16, body byte) []byte {
 	// unified header: 001 C=0 S=1 L=1 EE | seq16 | len16 | 16+ bytes of "ciphertext"
 	rec := []byte{0x2c | epochLow&3, byte(seq >> 8), byte(seq), 0, 17}
